@@ -3,6 +3,8 @@
 package omniwitness
 
 import (
+	"google.golang.org/grpc/codes"
+	"google.golang.org/grpc/status"
 	"bytes"
 	"context"
 	"encoding/json"
@@ -72,7 +74,11 @@ type FeedCase struct {
 	Word    string `json:"word"`     // transient failures, one letter per attempt: G get-latest, P fetch-proof, U update
 	Never   string `json:"never"`    // "" or G/P/U: that call never succeeds
 	DeadMs  int    `json:"dead_ms"`  // context deadline for Never cases
-	BadCp   string `json:"bad_cp"`   // "" | wrongkey | wrongorigin | garbage
+	BadCp   string `json:"bad_cp"`   // "" | wrongkey | wrongorigin | garbage | trailing-newline | trailing-space | trailing-crlf | leading-newline
+	// ErrKind: what the transient failures look like: "" plain error | timeout (an error
+	// matching context.DeadlineExceeded, as an http.Client with its own timeout reports,
+	// while the feeder's context is alive) | canceled (wraps context.Canceled) | unavailable (gRPC status)
+	ErrKind string `json:"err_kind,omitempty"`
 	Storage string `json:"storage"`  // real witness storage
 	WStale  bool   `json:"w_stale"`  // (stub) witness's reported checkpoint is on the other branch than the log's
 	Shape   string `json:"shape,omitempty"` // published checkpoint: "" plain | ext (extension lines) | lz (leading zeros in the size) | extrasig (an unknown extra signature line)
@@ -101,6 +107,25 @@ type stubWitness struct {
 	attempt  int // index of the current attempt (incremented by GetLatest)
 	consumed int
 	calls    []call
+}
+
+type stubTimeoutErr struct{ what string }
+
+func (e stubTimeoutErr) Error() string   { return "stub: " + e.what + ": request timed out" }
+func (e stubTimeoutErr) Timeout() bool   { return true }
+func (e stubTimeoutErr) Is(t error) bool { return t == context.DeadlineExceeded }
+
+// transient builds the error of a transient failure in the case's style.
+func (s *stubWitness) transient(what string) error {
+	switch s.c.ErrKind {
+	case "timeout":
+		return stubTimeoutErr{what}
+	case "canceled":
+		return fmt.Errorf("stub: %s: per-request context: %w", what, context.Canceled)
+	case "unavailable":
+		return status.Error(codes.Unavailable, "stub: "+what+" unavailable")
+	}
+	return errors.New("stub: transient " + what + " failure")
 }
 
 func (s *stubWitness) letter() byte {
@@ -164,7 +189,7 @@ func (s *stubWitness) GetLatestCheckpoint(ctx context.Context, logID string) ([]
 		}
 		c.Failed = true
 		s.calls = append(s.calls, c)
-		return nil, errors.New("stub: transient get-latest failure")
+		return nil, s.transient("get-latest")
 	}
 	b := s.latestFor(s.attempt)
 	c.Ret = b
@@ -195,7 +220,7 @@ func (s *stubWitness) fetchProof(ctx context.Context, from, to log.Checkpoint) (
 		}
 		c.Failed = true
 		s.calls = append(s.calls, c)
-		return nil, errors.New("stub: transient fetch-proof failure")
+		return nil, s.transient("fetch-proof")
 	}
 	// a recognisable proof: derived from the sizes asked for
 	p := [][]byte{[]byte(fmt.Sprintf("proof %d->%d attempt %d", from.Size, to.Size, s.attempt))}
@@ -217,7 +242,7 @@ func (s *stubWitness) Update(ctx context.Context, logID string, oldSize uint64, 
 		}
 		c.Failed = true
 		s.calls = append(s.calls, c)
-		return nil, errors.New("stub: transient update failure")
+		return nil, s.transient("update")
 	}
 	c.Ret = []byte(fmt.Sprintf("cosigned by stub in attempt %d\n", s.attempt))
 	s.calls = append(s.calls, c)
@@ -241,6 +266,14 @@ func runFeedStub(c *FeedCase) (bool, []string, error) {
 		root := logBr.Root(uint64(c.N))
 		text := vlib.CheckpointText("other.example/log", uint64(c.N), root[:], nil)
 		published = vlib.Note(text, key.SigLine(text))
+	case "trailing-newline":
+		published = append(cpBytes(key, logBr, c.N), '\n')
+	case "trailing-space":
+		published = append(cpBytes(key, logBr, c.N), ' ')
+	case "trailing-crlf":
+		published = append(cpBytes(key, logBr, c.N), '\r', '\n')
+	case "leading-newline":
+		published = append([]byte{'\n'}, cpBytes(key, logBr, c.N)...)
 	default:
 		published = []byte("garbage\n")
 	}
@@ -553,7 +586,7 @@ func allWords(max int) []string {
 // TestC13Words: all 121 failure words of length <= 4, for several size scenarios, run
 // as concurrent batches (the exponential back-off uses the real clock).
 func TestC13Words(t *testing.T) {
-	st := vlib.StatsFor("C13", "words", "exhaustive: all 121 words over {get-latest, fetch-proof, update} failures of length 0..4 followed by success, x size scenarios (first use, growth with advancing witness, equality); "+ruleC13)
+	st := vlib.StatsFor("C13", "words", "exhaustive: all 121 words over {get-latest, fetch-proof, update} failures of length 0..4 followed by success (each word once with plain errors and once with errors that look like a per-request timeout / a cancelled per-request context / gRPC Unavailable), x size scenarios (first use, growth with advancing witness, equality); "+ruleC13)
 	type scen struct {
 		w []int
 		n int
@@ -572,6 +605,12 @@ func TestC13Words(t *testing.T) {
 				continue
 			}
 			cases = append(cases, &FeedCase{W: s.w, N: s.n, Word: w})
+			// the same word with failures that look like per-request timeouts, cancelled
+			// per-request contexts or gRPC Unavailable: transient all the same, because the
+			// feeder's own context is alive
+			if w != "" {
+				cases = append(cases, &FeedCase{W: s.w, N: s.n, Word: w, ErrKind: []string{"timeout", "canceled", "unavailable"}[i%3]})
+			}
 		}
 	}
 	if err := runBatch(st, "words", cases); err != nil {
@@ -623,8 +662,9 @@ func TestC13Never(t *testing.T) {
 			cases = append(cases, &FeedCase{W: w, N: 9, Never: never, DeadMs: 1500})
 		}
 	}
-	for _, bad := range []string{"wrongkey", "wrongorigin", "garbage"} {
+	for _, bad := range []string{"wrongkey", "wrongorigin", "garbage", "trailing-newline", "trailing-space", "trailing-crlf", "leading-newline"} {
 		cases = append(cases, &FeedCase{W: []int{3}, N: 9, BadCp: bad})
+		cases = append(cases, &FeedCase{W: []int{-1}, N: 9, BadCp: bad})
 	}
 	if err := runBatch(st, "never", cases); err != nil {
 		t.Fatal(err)
